@@ -150,11 +150,20 @@ func (f *Font) makePrivateDict(idx int, defaultWidth, nominalWidth float64) cffD
 	}
 
 	if defaultWidth != 0 {
-		privateDict[opDefaultWidthX] = []interface{}{int32(defaultWidth)}
+		privateDict[opDefaultWidthX] = []interface{}{dictNumber(defaultWidth)}
 	}
 	if nominalWidth != 0 {
-		privateDict[opNominalWidthX] = []interface{}{int32(nominalWidth)}
+		privateDict[opNominalWidthX] = []interface{}{dictNumber(nominalWidth)}
 	}
 
 	return privateDict
+}
+
+// dictNumber returns x as an int32 if this is possible without loss,
+// and as a float64 otherwise.
+func dictNumber(x float64) interface{} {
+	if i := int32(x); float64(i) == x {
+		return i
+	}
+	return x
 }
